@@ -469,13 +469,10 @@ Print Assumptions C02_broadcast_pointwise_restricts_to_pwn.
                              lift_constants_to_initializers, rewrite_mul_rsqrt_as_div — and remove_redundant_casts_ir (both entries): it
                              IS verified, but over typed tensors (CastPass.v, ttensor/tteq); this theorem is over [tensor A]/teq,
                              and no embedding of ttensor into [tensor A] lets teq see the dtype of an EMPTY tensor;
-          [frame_ok_T]       a fold of the Transpose-PAIR pass changes no value outside the members it moves, and those
-                             members are elementwise nodes of the rewritten graph (established inside the simulations of
-                             TransposeRegion.v / TransposePairPass.v, not yet exported; for the add-forest pass the same fact IS
-                             exported and used: TransposeRegion.region_frame, TransposeAddForestSound.addforest_step_frame).  The declared dims after
-                             the folds are NOT assumed any more: the rewired refresh is modelled (TransposeRefresh.v, tied:
-                             declared shape of every value compared) and PROVED true from this frame
-                             (OptimizePipeline.refresh_fold_true + RefreshSound.broadcast_dims_bshape);
+          (nothing about the Transpose folds any more: their value frames are proved — TransposeRegion.region_frame,
+                             transpose_pair_action_frame, TransposeAddForestSound.addforest_step_frame — and the declared dims
+                             after the folds are proved true from the modelled, tied rewired refresh: TransposeRefresh.v,
+                             OptimizePipeline.refresh_fold_true, RefreshSound.broadcast_dims_bshape);
           [kinds_ok_*]       boolean: remove_dead_nodes meets a graph of single-output nodes (dce_guard); every action of the
                              Transpose-pair pass is of a proved kind (kinds_along), and every fold
                              of the Transpose-reduce pass has its axes as an ATTRIBUTE or none (axes_attr_along): with the axes
@@ -487,7 +484,6 @@ Print Assumptions C02_broadcast_pointwise_restricts_to_pwn.
 From J2O Require Import OptGraph OptimizePipeline.
 Theorem C02_optimize_pipeline_sound :
   forall (A : Type) sem F Fcl reduce denoteZ mkZ denoteB mkB, opt_world A sem F Fcl reduce denoteZ mkZ denoteB mkB ->
-  frame_ok_T A sem denoteZ denoteB ->
   forall fuel opset U, unmodelled_ok A sem denoteZ denoteB U ->
   forall g e, kinds_ok_top fuel opset U g -> padm A sem denoteZ denoteB g e ->
   forall o, run (tensor A) sem (o_graph g) e = Some o ->
@@ -498,7 +494,6 @@ Print Assumptions C02_optimize_pipeline_sound.
 
 Theorem C02_optimize_pipeline_sound_function_bodies :
   forall (A : Type) sem F Fcl reduce denoteZ mkZ denoteB mkB, opt_world A sem F Fcl reduce denoteZ mkZ denoteB mkB ->
-  frame_ok_T A sem denoteZ denoteB ->
   forall fuel opset U, unmodelled_ok A sem denoteZ denoteB U ->
   forall g e, kinds_ok_body fuel opset U g -> padm A sem denoteZ denoteB g e ->
   forall o, run (tensor A) sem (o_graph g) e = Some o ->
